@@ -108,6 +108,33 @@ def modelObs (s : St) (plainReplays : Bool) : List String :=
   let (wires, r) := send cfg s.script
   resultTok r :: seenAll s wires s.script
 
+/-- Walk the connections of a run (script entry i answers connection i; refused connections are not
+in the server's log) and check where the attempts went: an iteration starts with an attempt in
+the request's own scheme; a plain-http attempt of an https request is only allowed as the
+fallback directly behind an https attempt that failed.  `atStart`: the next connection begins an
+iteration.  Returns the 1-based index (among seen attempts) of the first offending attempt. -/
+def schemeWalk (tlsReq : Bool) : List Outcome → List String → Bool → Nat → Option Nat
+  | _, [], _, _ => none
+  | sc, a :: seen, atStart, i =>
+    match sc.headD .net with
+    | .refuse =>
+      -- unseen connection: as the start of an iteration it is a failed attempt in the request's scheme
+      -- (a fallback may follow), as a fallback it ends the iteration
+      if sc.isEmpty then none else schemeWalk tlsReq sc.tail (a :: seen) (!atStart) i
+    | o =>
+      let isS := a.startsWith "a:S"
+      if atStart then
+        if tlsReq ∧ !isS then some i
+        else schemeWalk tlsReq sc.tail seen (!(tlsReq ∧ o.isErr)) (i + 1)
+      else
+        -- directly behind a failed https attempt: the fallback (http) or, without one, the next iteration
+        if isS then schemeWalk tlsReq sc.tail seen (!o.isErr) (i + 1)
+        else schemeWalk tlsReq sc.tail seen true (i + 1)
+termination_by sc seen _ _ => sc.length + seen.length
+decreasing_by
+  all_goals simp_wf
+  all_goals (try (cases sc <;> simp_all <;> omega))
+
 /-- fields of an attempt token -/
 def fields (a : String) : List String := a.splitOn "|"
 
@@ -147,6 +174,9 @@ def step (s : St) (kind : String) (args impl : List String) : Option (St × Step
       | some a => if res.startsWith "ok:" ∧ (!okAttempt a ∨ (fields a).getD 5 "" ≠ "0") then
           ["side=impl key=success-with-incomplete-request Send reported success for an attempt that did not carry the complete original request"] else []
       | none => if res.startsWith "ok:" then ["side=impl key=success-with-incomplete-request Send reported success although no request reached the server"] else []
+    let pf1c := match (if s.ka then none else schemeWalk s.cfg.req.tls s.script seen true 1) with
+      | some i => [s!"side=impl key=retry-went-to-fallback-scheme attempt {i} went to plain http although it is not the fallback directly behind a failed https attempt (an https request is retried over https to the original URL)"]
+      | none => []
     let maxAtt := if fb then 2 * (s.cfg.bo + 1) else s.cfg.bo + 1
     let pf3 := if k > maxAtt then [s!"side=impl key=retry-after-backoff-exhausted {k} attempts with {s.cfg.bo} backoff steps"] else []
     -- outcomes of the requests the server saw, in order (refused connections are never seen)
@@ -178,7 +208,7 @@ def step (s : St) (kind : String) (args impl : List String) : Option (St × Step
     let resT := ((obs.headD "").splitOn ":").headD ""
     let natt := min (obs.length - 1) 4
     let mode := if fb then "fb" else if s.cfg.req.tls then "tls" else if s.ka then "ka" else "http"
-    let pfs := pf1 ++ pf1b ++ pf2 ++ pf3 ++ pf4 ++ pf5 ++ pf6
+    let pfs := pf1 ++ pf1b ++ pf1c ++ pf2 ++ pf3 ++ pf4 ++ pf5 ++ pf6
     some (s, { obs := obs, propfails := pfs, branch := s!"send.{mode}.{kindT}.{resT}.att{natt}" })
   | _, _ => none
 
